@@ -122,7 +122,9 @@ class RecheckCheck:
             "damage alphabet: flip a byte, truncate to a shorter length, remove "
             "a file; S: every offset and length; R: boundary sample (first, "
             "middle, last, piece boundaries +-1)",
-            "damage sets of size 0,1 (quick) and 2 (thorough, S only)",
+            "damage sets of size 0,1 (quick) and 2 (thorough, S only, for "
+            "worlds whose total size is within a stated budget: <= 2P+1 for "
+            "one file, <= 2P+2 for two files, <= P+3 for three)",
             "foreign metafiles come from the reference encoder and are "
             "self-checked by the reference verifier (100% on intact content)",
             "content parent directory never carries the torrent's own name "
@@ -159,14 +161,26 @@ class RecheckCheck:
                         if B != 2 or P > 2 * B:
                             continue
                         top = P // 2 + 1 if quick else P + 1
+                    elif n == 2:
+                        top = 2 * P + 1 if quick else min(4 * P + 1, 34)
                     else:
                         top = 2 * P + 1 if quick else 4 * P + 1
                     alpha = list(range(0, top + 1))
+                    if n == 1:
+                        # one group per chunk of sizes (a single file has no
+                        # "first size" to split on)
+                        for i in range(0, len(alpha), 6):
+                            gs.append({"scale": "S", "B": B, "P": P,
+                                       "shape": sh, "alpha": alpha[i:i + 6],
+                                       "first": None, "seed": seed,
+                                       "tier": tier,
+                                       "maxdmg": 1 if quick else 2})
+                        continue
                     for g in e1.size_groups(sh, alpha):
                         gs.append({"scale": "S", "B": B, "P": P, "shape": sh,
                                    "alpha": alpha, "first": g["first"],
                                    "seed": seed, "tier": tier,
-                                   "maxdmg": 1 if quick or n >= 3 else 2})
+                                   "maxdmg": 1 if quick or n >= 4 else 2})
         # R
         Ps = [32768] if quick else [16384, 32768, 65536]
         for P in Ps:
@@ -353,7 +367,10 @@ class RecheckCheck:
             files = world.files_of(w, seed)
             singles = damages_for(files, g["P"], g["scale"], None)
             dmg_sets = [()] + [(d,) for d in singles]
-            if g["maxdmg"] >= 2:
+            n = len(sizes)
+            budget = {1: 2 * g["P"] + 1, 2: 2 * g["P"] + 2,
+                      3: g["P"] + 3}.get(n, 0)
+            if g["maxdmg"] >= 2 and sum(sizes) <= budget:
                 dmg_sets += [c for c in itertools.combinations(singles, 2)
                              if c[0][1] != c[1][1] or
                              (c[0][0] == "flip" and c[1][0] == "flip")]
